@@ -176,6 +176,13 @@ def main():
         sel = {ch: 1, ch + 1: 1, ch + 2: 0, ch + 3: is_read}
         cases.append(dict(op=opname, chip_row=5, chip=sel, second_row=9, extra={9: ("u", sel), 10: ("w", {})},
                           what=f"two memory chiplet rows ({'read' if is_read else 'write'})", match=two_words, match2=two_words2))
+    # RCOMBBASE <-> two memory read rows: word (h0..h3) at s13 and word (h4, h5, 0, 0) at s14 (crypto_ops.md: "the
+    # remaining elements of the word are expected to be empty")
+    selr = {ch: 1, ch + 1: 1, ch + 2: 0, ch + 3: 1}
+    cases.append(dict(op="RCombBase", chip_row=5, chip=selr, second_row=9, extra={9: ("u", selr), 10: ("w", {})}, what="two memory chiplet rows (OOD values, randomness)",
+                      match=lambda cur, nxt, q: [(q(c["MEMORY_CTX"]), cur(CTX)), (q(c["MEMORY_ADDR"]), cur(ST + 13)), (q(c["MEMORY_CLK"]), cur(CLK))] + [(q(MV + i), cur(HP + i)) for i in range(4)],
+                      match2=lambda cur, nxt, u: [(u(c["MEMORY_CTX"]), cur(CTX)), (u(c["MEMORY_ADDR"]), cur(ST + 14)), (u(c["MEMORY_CLK"]), cur(CLK)), (u(MV), cur(HP + 4)), (u(MV + 1), cur(HP + 5)),
+                                                  (u(MV + 2), Lin({}, 0)), (u(MV + 3), Lin({}, 0))]))
     # HPERM <-> two hasher rows: the row that starts the permutation (BP, address 17 = chiplet row 16) holding the
     # input state and the row that returns the whole state (SOUT, chiplet row 23); hasher state element j <-> stack item 11 - j
     cases.append(dict(op="HPerm", chip_row=16, op_row=40, cur_consts={HP: 17}, chip={ch: 0, HS: 1, HS + 1: 0, HS + 2: 0, HIDX: 0},
@@ -243,8 +250,8 @@ def main():
         samples=V.obligations[:8], obligations=len(V.obligations), discharged=c_.get("discharged", 0), queries=cov["queries"],
         functions_encoded=["processor chiplets::aux_trace::BusColumnBuilder::{get_requests_at, get_responses_at}, build_bitwise_request, build_mem_request_word, build_mem_request_element, "
                            "compute_memory_request, build_bitwise_chiplet_responses, build_memory_chiplet_responses, get_op_label (MIR)", "miden-air MainTrace accessors (MIR)"],
-        bounds="one operation row and one chiplet row, all cells and challenges symbolic; operations U32AND, U32XOR, MLOADW, MSTOREW, MLOAD, MSTORE, MSTREAM, PIPE (two messages); SPAN, JOIN, SPLIT, LOOP, CALL, DYN, RESPAN, END and HPERM (two messages) against the hasher (concrete hasher address 17, decoder row 40)",
-        not_covered="multiset equality over whole traces; MPVERIFY / MRUPDATE, SYSCALL (kernel ROM), RCOMBBASE messages; decoder virtual tables; range-checker LogUp; the request side of the range checker (seed c03a)",
+        bounds="one operation row and one chiplet row, all cells and challenges symbolic; operations U32AND, U32XOR, MLOADW, MSTOREW, MLOAD, MSTORE, MSTREAM, PIPE, RCOMBBASE (two messages); SPAN, JOIN, SPLIT, LOOP, CALL, DYN, RESPAN, END and HPERM (two messages) against the hasher (concrete hasher address 17, decoder row 40)",
+        not_covered="multiset equality over whole traces; MPVERIFY / MRUPDATE, SYSCALL (kernel ROM) messages; decoder virtual tables; range-checker LogUp; the request side of the range checker (seed c03a)",
         sources_fingerprint=repo_fingerprint(["processor/src/chiplets/aux_trace", "air/src/trace/main_trace.rs"]),
         evaluations=len(V.obligations), distinct_nontrivial=c_.get("discharged", 0), rule="one obligation per (operation, chiplet row kind, path)",
     )
@@ -260,6 +267,7 @@ BUS_PROGRAMS = {
     "Span": "begin push.1 drop end", "End": "begin push.1 if.true push.2 drop else push.3 drop end end",
     "Join": "begin push.1 if.true push.2 drop else push.3 drop end push.4 drop end", "Split": "begin push.1 if.true push.2 drop else push.3 drop end end",
     "HPerm": "begin push.1.2.3.4 hperm dropw dropw dropw end",
+    "RCombBase": "begin push.5.6.7.8 mem_storew.10 dropw push.4.3.0.0 mem_storew.20 dropw push.0.20.10.0 padw padw padw rcomb_base dropw dropw dropw dropw end",
     "MStream": "begin push.1.2.3.4 mem_storew.0 dropw padw padw padw mem_stream dropw dropw dropw end",
     "Pipe": ("begin padw padw padw adv_pipe dropw dropw dropw end", [1, 2, 3, 4, 5, 6, 7, 8]),
     "Loop": "begin push.1 while.true push.0 end end", "Call": "proc.f push.1 drop end begin call.f end", "Dyn": "begin push.1 drop end",
